@@ -166,6 +166,17 @@ def directed() -> list[dict[str, Any]]:
             out.append({'name': f'dire{k}', 'desc': {'seed': k, 'handlers': handlers, 'timeline': tl, 'faults': [], 'quiet': None, 'latency': 0.001, 'end': 'stop', 'exit_wait': 200.0,
                                                      'settings': dict(base_settings), 'trigger': 'watch_error', 't_trigger': round(8.0 + d_err, 3), 't_final': 40.0, 'post_yields': yields,
                                                      'namespaces': ['ns1', 'ns2'], 'operator_kwargs': {'namespaces': ['ns*']}}})
+    # the peering keep-alive fails on a write that the server HAS applied (the response is lost): its record is in the peering object although the task
+    # never saw an answer -- the very first keep-alive included. The operator shuts down (an essential task failed) and still withdraws the record.
+    for yields in (0, 2):
+        for nth in (1, 2, 3):
+            k += 1
+            handlers = [{'kind': 'cleanup', 'id': 'cl0', 'script': [['ok']], 'opts': {}}, {'kind': 'update', 'id': 'u1', 'script': []}, {'kind': 'create', 'id': 'c1'}]
+            tl = [[0.0, 'create', 'o0', {'spec': {'x': 0}}], [0.5, 'start', 'op1']]
+            out.append({'name': f'dirk{k}', 'desc': {'seed': k, 'handlers': handlers, 'timeline': tl, 'quiet': None, 'latency': 0.001, 'end': 'stop', 'exit_wait': 200.0,
+                                                     'faults': [{'client': 'op1', 'match': {'kind': 'patch', 'plural': 'clusterkopfpeerings'}, 'nth': [nth, nth + 1, nth + 2], 'actions': [['lost', {}]]}],
+                                                     'settings': dict(base_settings, networking__error_backoffs=[0.1, 0.1]), 'peering': {'name': 'default'},
+                                                     'trigger': 'keepalive_lost', 't_trigger': 0.5, 't_final': 40.0, 'post_yields': yields}})
     return out
 
 
@@ -238,15 +249,15 @@ def run_case(case: dict[str, Any]) -> dict[str, Any]:
         t_fire = next((c['t'] for c in ix.calls if c['inc'] == name and c['h'] == 'boom'), None)
     elif trig == 'discovery_down':
         t_fire = t_startup_end
-    elif trig == 'keepalive_down':
+    elif trig in ('keepalive_down', 'keepalive_lost'):
         bad = [r for r in reqs if r.plural == 'clusterkopfpeerings' and r.kind == 'patch' and r.fault]
-        t_fire = bad[0].t if bad else None
+        t_fire = (bad[0].t if trig == 'keepalive_down' else bad[-1].t) if bad else None
     elif trig == 'startup_fail':
         t_fire = t_startup_end
     daemon_grace = max([(specs[h]['opts'].get('cancellation_backoff') or 0) + (specs[h]['opts'].get('cancellation_timeout') or 0) + (specs[h]['persona'].get('linger') or 0)
                         for h in specs if specs[h]['kind'] == 'daemon'] or [0.0])
     cleanup_grace = sum(1.0 + 0.3 * 3 for h in specs.values() if h['kind'] == 'cleanup')
-    bound = 2.0 + 5.0 + 2.0 + daemon_grace + cleanup_grace + 3.0 + (4.0 if trig in ('stop_in_startup', 'startup_fail') else 0.0) + (1.0 if trig in ('discovery_down', 'keepalive_down') else 0.0)
+    bound = 2.0 + 5.0 + 2.0 + daemon_grace + cleanup_grace + 3.0 + (4.0 if trig in ('stop_in_startup', 'startup_fail') else 0.0) + (1.0 if trig in ('discovery_down', 'keepalive_down', 'keepalive_lost') else 0.0)
     cov['bounded_exits'] = 1
     key = {'stop': 'stop_flag_runs', 'stop_api_down': 'api_down_runs', 'stop_in_ns_removal': 'ns_removal_runs', 'cancel': 'cancel_runs', 'watch_error': 'fatal_watch_runs', 'worker_fatal': 'worker_failure_runs', 'discovery_down': 'root_failure_runs',
            'keepalive_down': 'peering_failure_runs'}.get(trig)
@@ -268,13 +279,13 @@ def run_case(case: dict[str, Any]) -> dict[str, Any]:
             viol.append({'mech': 'exit-delayed-by-lingering-tasks', 'msg': f"stop requested at t={t_fire} with no daemon, timer or handler in flight: kopf.operator() returned only at t={t_end} "
                                                                             f"(cleanup handlers need at most {cleanup_grace}s): something was left hanging and waited for", 'witness': None})
         # ---- L4: failures are re-raised -----------------------------------------------------------------------------------------------------
-        if trig in ('watch_error', 'worker_fatal', 'discovery_down', 'keepalive_down') and t_end is not None and t_end <= t_fire + bound and inc.exc is None and not inc.cancelled:
+        if trig in ('watch_error', 'worker_fatal', 'discovery_down', 'keepalive_down', 'keepalive_lost') and t_end is not None and t_end <= t_fire + bound and inc.exc is None and not inc.cancelled:
             viol.append({'mech': 'failure-not-reraised', 'msg': f"trigger {trig} at t={t_fire}: kopf.operator() returned normally at t={t_end} instead of re-raising the failure", 'witness': None})
         if trig in ('stop', 'stop_in_ns_removal') and inc.exc is not None and not any(specs[h]['kind'] == 'cleanup' and specs[h]['script'][0][0] in ('arb', 'perm') for h in specs):
             viol.append({'mech': 'stop-raises', 'msg': f"a plain stop request made kopf.operator() raise {inc.exc!r}", 'witness': None})
 
     # ---- L5: cleanup runs last -------------------------------------------------------------------------------------------------------------
-    graceful = trig in ('stop', 'stop_in_ns_removal', 'watch_error', 'worker_fatal', 'discovery_down', 'keepalive_down') and startup_done and t_end is not None
+    graceful = trig in ('stop', 'stop_in_ns_removal', 'watch_error', 'worker_fatal', 'discovery_down', 'keepalive_down', 'keepalive_lost') and startup_done and t_end is not None
     n_clean = sum(1 for h in specs.values() if h['kind'] == 'cleanup')
     if graceful and n_clean and t_fire is not None and t_end <= t_fire + bound:
         cov['cleanup_order_checks'] = 1
@@ -302,7 +313,7 @@ def run_case(case: dict[str, Any]) -> dict[str, Any]:
                 viol.append({'mech': 'api-activity-after-cleanup-started', 'msg': f"the first cleanup handler ran at t={tc}; {len(later)} API request(s) followed (first: {later[0].method} {later[0].path} at t={later[0].t})", 'witness': None})
 
     # ---- L6/L7: record withdrawn, daemons stopped in stages --------------------------------------------------------------------------------------
-    if desc.get('peering') and startup_done and trig in ('stop', 'watch_error', 'worker_fatal', 'discovery_down') and t_end is not None and t_fire is not None and t_end <= t_fire + bound:
+    if desc.get('peering') and startup_done and trig in ('stop', 'watch_error', 'worker_fatal', 'discovery_down', 'keepalive_lost') and t_end is not None and t_fire is not None and t_end <= t_fire + bound:
         puid = next((u for u, vs in w.history.items() if vs[0]['plural'] == 'clusterkopfpeerings'), None)
         ph = [v for v in w.history.get(puid, []) if v['t'] <= t_end + 1e-6]
         ever = any(name in (v['body'].get('status') or {}) for v in ph)
